@@ -34,17 +34,17 @@ type Flow struct {
 	// address-taken; facts about them die at every call.
 	unstable map[string]bool
 	// boolDefs: once-assigned boolean locals standing for a comparison
-	boolDefs map[string]ast.Expr
+	boolDefs    map[string]ast.Expr
 	assignCount map[string]int
 	mayReturn   func(*ast.CallExpr) bool
 	keyKind     map[string]string // "name@line" -> recv | int | error | bool | other
 }
 
 var noReturnCallees = map[string]bool{
-	"panic": true,
-	"os.Exit": true,
+	"panic":          true,
+	"os.Exit":        true,
 	"runtime.Goexit": true,
-	"log.Fatal": true, "log.Fatalf": true, "log.Fatalln": true, "log.Panic": true, "log.Panicf": true, "log.Panicln": true,
+	"log.Fatal":      true, "log.Fatalf": true, "log.Fatalln": true, "log.Panic": true, "log.Panicf": true, "log.Panicln": true,
 	"github.com/grailbio/base/log.Fatal": true, "github.com/grailbio/base/log.Fatalf": true,
 	"github.com/grailbio/base/log.Panic": true, "github.com/grailbio/base/log.Panicf": true,
 	"typecheck.Panic": true, "typecheck.Panicf": true,
